@@ -72,7 +72,7 @@ EDITS = {
     'rename-climb-locals': (rename_local('rule', 'alternative_or_next', 'current_node', 'rule_top'), ['C12']),
     'rename-instantiate-locals': (rename_local('symbolic', 'Variable._instantiate_new_values_and_yield_results_', 'bound_kwargs', 'args_now'), ['C11']),
     'rename-dup-locals': (rename_local('symbolic', 'SymbolicExpression._is_duplicate_output_', 'required_output', 'key'), ['C02', 'C16']),
-    'rename-update-conclusion': (rename_local('conclusion_selector', 'ConclusionSelector.update_conclusion', 'required_output', 'key'), ['C12']),
+    'rename-update-conclusion': (rename_local('conclusion_selector', 'ConclusionSelector.update_conclusion', 'required_output', 'projected'), ['C12']),
     'rename-alternative-flags': (rename_local('conclusion_selector', 'Alternative._evaluate__', 'left_is_true', 'first_fired'), ['C12']),
     'rename-add-value': (rename_local('conclusion', 'Add._evaluate__', 'v', 'concluded'), ['C12', 'C11']),
     'rename-process-output': (rename_local('symbolic', 'Variable._process_output_and_update_values_', 'values', 'row'), ['C11']),
